@@ -142,8 +142,11 @@ def __specialise__(zero: T, names: Iterable[str]) -> Type[ResourceLevels[T]]:
     :param names: names of fields
     """
     fields = tuple(sorted(names))
+    # the zero is part of the type (the default of every field, by its literal);
+    # 0 and 0.0 compare equal, so the key must carry the type of zero as well
+    cache_key = (fields, type(zero), str(zero))
     try:
-        return ResourceLevels.__specialisation_cache__[fields]
+        return ResourceLevels.__specialisation_cache__[cache_key]
     except KeyError:
         pass
 
@@ -165,7 +168,7 @@ def __specialise__(zero: T, names: Iterable[str]) -> Type[ResourceLevels[T]]:
         def __ne__(self, other):
             return not self == other
 
-    ResourceLevels.__specialisation_cache__[fields] = SpecialisedResourceLevels
+    ResourceLevels.__specialisation_cache__[cache_key] = SpecialisedResourceLevels
     return SpecialisedResourceLevels
 
 
